@@ -1,14 +1,15 @@
-\* (recent cache FALSE, serving cache FALSE, a non-empty block; the eight combinations are run as eight TLC processes)
+\* (recent cache FALSE, serving cache FALSE, the empty block; the eight combinations are run as eight TLC processes)
+\* EXTENDED action set (RemoveODSQ4, Reopen with a held accessor) - thorough tier.
 \* Behaviours of the representation graph.  The graph does not depend on the layout (only on whether the
 \* block is the empty block), so width 1 and the empty block are enough; every transition is printed as an
 \* EDGE record with the model's predictions for the probes, and replayed on the real store by the driver.
 SPECIFICATION Spec
 CONSTANTS
   MaxObj = 4
-  Extended = FALSE
-  Ks = {1}
+  Extended = TRUE
+  Ks = {}
   NsSeq <- Ns1
-  WithEmpty = FALSE
+  WithEmpty = TRUE
   CfgRs = {FALSE}
   CfgSs = {FALSE}
 VIEW view
